@@ -39,7 +39,7 @@ def strategy():
         "transports": st.lists(tr, min_size=1, max_size=3), "outcomes": st.lists(st.sampled_from(OUTCOMES), min_size=1, max_size=10),
         "main": st.booleans(), "fatal": st.sampled_from([None, None, "refused", "abort", "transport1"]),
         "stop": st.one_of(st.none(), st.tuples(st.sampled_from(["delay", "connect", "joined"]), st.integers(0, 6))), "hold": st.sampled_from([0.0, 0.7, 3.0]), "seed": st.integers(0, 1 << 20),
-        "stop_reply": st.sampled_from(["reply", "reply", "drop"])})
+        "stop_reply": st.sampled_from(["reply", "reply", "drop"]), "reset_after_leave": st.sampled_from([False, False, True])})
 
 
 class Conn:
@@ -346,7 +346,11 @@ class World:
             for conn in self.conns:
                 if conn.ep.drop_requested and not conn.ep.loss_delivered and conn.stage in ("rejected", "aborted", "left", "goodbye-sent", "held", "hold", "transport-up"):
                     if not conn.ep.t.pending:
-                        self.end_conn(conn, "aborted" if conn.ep.drop_requested == "abort" else "done")
+                        if self.c.get("reset_after_leave") and conn.stage in ("left", "goodbye-sent"):
+                            # the GOODBYE exchange is over, then the peer tears TCP down with a reset: an unclean end of the transport *after* the session has left
+                            self.end_conn(conn, "lost")
+                        else:
+                            self.end_conn(conn, "aborted" if conn.ep.drop_requested == "abort" else "done")
                         progressed = True
 
     def next_harness_deadline(self):
@@ -506,6 +510,11 @@ def judge(c, w, tr, done_time, n_att_at_done, stopped):
                     k, len(atts), "pending" if not tr.done else ("success" if tr.ok else "error %r" % (tr.value,))), c)
     if tr.n > 1:
         raise Violation("C14|start-result-completed-twice", "", c)
+    for k, a in enumerate(atts[:-1]):
+        if a.get("joined") and (a["outcome"] == "goodbye-normal" or (a["outcome"] == "main-returns" and c["main"] and a.get("main_called"))):
+            # the session of this attempt left normally: the component is done - however the transport is torn down afterwards
+            raise Violation("C14|attempt-after-normal-leave", "the session of attempt #%d (%s) left normally, yet %d more attempt(s) followed; start() is %s" % (
+                k, a["outcome"], len(atts) - 1 - k, "pending" if not tr.done else ("success" if tr.ok else "error %r" % (tr.value,))), c)
     last = atts[-1] if atts else None
     terminal = None
     if last is not None:
